@@ -83,25 +83,30 @@ def parseVerL (s : List Char) : Option Ver :=
 
 def parseVer (s : String) : Option Ver := parseVerL s.toList
 
+/-- the operator prefix of a clause text -/
+def splitOp (s : List Char) : Option COp × List Char :=
+  match s with
+  | '>' :: '=' :: r => (some .ge, r)
+  | '<' :: '=' :: r => (some .le, r)
+  | '=' :: '=' :: r => (some .eq, r)
+  | '!' :: '=' :: r => (some .ne, r)
+  | '~' :: '=' :: r => (some .compat, r)
+  | '>' :: r => (some .gt, r)
+  | '<' :: r => (some .lt, r)
+  | _ => (none, [])
+
+/-- a trailing `.*` -/
+def stripWild (rest : List Char) : List Char × Bool :=
+  match rest.reverse with
+  | '*' :: '.' :: r => (r.reverse, true)
+  | _ => (rest, false)
+
 /-- clause text `op version[.*]` over canonical version spellings -/
 def parseClauseL (s : List Char) : Option (Clause Ver) :=
-  let (op?, rest) : Option COp × List Char :=
-    match s with
-    | '>' :: '=' :: r => (some .ge, r)
-    | '<' :: '=' :: r => (some .le, r)
-    | '=' :: '=' :: r => (some .eq, r)
-    | '!' :: '=' :: r => (some .ne, r)
-    | '~' :: '=' :: r => (some .compat, r)
-    | '>' :: r => (some .gt, r)
-    | '<' :: r => (some .lt, r)
-    | _ => (none, [])
-  match op? with
-  | none => none
-  | some op =>
-    let (body, wild) :=
-      match rest.reverse with
-      | '*' :: '.' :: r => (r.reverse, true)
-      | _ => (rest, false)
+  match splitOp s with
+  | (none, _) => none
+  | (some op, rest) =>
+    let (body, wild) := stripWild rest
     if wild && !(op == .eq || op == .ne) then none
     else (parseVerL body).bind fun v =>
       if wild && !v.isFinal then none else some { op := op, ver := v, wild := wild }
